@@ -830,7 +830,7 @@ def _parse_unit(input_: str) -> Optional[Unit]:
     input_ = input_.strip().lower()
     if not isinstance(input_, str):
         raise TypeError(f"type str expected for 'input_', got {type(input_)}")
-    if hasattr(PreferredUnits, input_):
+    if input_ in getattr(PreferredUnits, '__dataclass_fields__'):
         return getattr(PreferredUnits, input_)
     try:
         return Unit[input_]
